@@ -188,6 +188,15 @@ def build_repo():
             rc, o, e = sh(cmd, timeout=900)
             if rc != 0:
                 raise BuildError("harness does not compile against /repo:\n" + (o + e)[-4000:])
+        gp = os.path.join(WORK, "gridprobe")
+        gsrc = os.path.join(VERIF, "harness", "gridprobe.cc")
+        gmain = os.path.join(REPO, "source", "gwb-grid", "main.cc")
+        if newer(lib, gp) or newer(gsrc, gp) or newer(gmain, gp):
+            cmd = ("g++ -O1 -std=c++14 -D%s -I%s/include -I%s/include -I%s %s -Wl,--whole-archive %s -Wl,--no-whole-archive -lz -lpthread -o %s.tmp && mv %s.tmp %s"
+                   % (GUARD, REPO, BUILD, REPO, gsrc, lib, gp, gp, gp))
+            rc, o, e = sh(cmd, timeout=900)
+            if rc != 0:
+                raise BuildError("gridprobe does not compile against /repo:\n" + (o + e)[-4000:])
         return time.time() - t0
 
 
@@ -200,9 +209,9 @@ def parse_answers(text):
     return out
 
 
-def run_probe(lines, timeout=3600, cwd=None):
+def run_probe(lines, timeout=3600, cwd=None, exe="wbprobe"):
     """feed command lines to wbprobe; returns one answer per command (crash -> 'crash')."""
-    probe = os.path.join(WORK, "wbprobe")
+    probe = os.path.join(WORK, exe)
     p = subprocess.run([probe], input="\n".join(lines) + "\n", capture_output=True, text=True, timeout=timeout, cwd=cwd)
     ans = parse_answers(p.stdout)
     if p.returncode != 0 or len(ans) != len(lines):
